@@ -18,17 +18,32 @@ open Biogo.Wire Biogo.Go.Bytes Biogo.Drive.Seqio Biogo.Spec.Seqio
 
 def ops : List String := ["fa", "fq", "fva", "fvq"]
 
+/-- what is demanded of a parsed observation: `ns` the counts the `Write` calls returned, `ds` the
+    bytes each of them emitted (both as the harness prints them), `calls` the reader's call history
+    as tokens.  Proved in `Properties/C01_checker.lean` (`demands_none_iff`). -/
+def demands (wf : Bool) (expected : List String) (ns ds : String) (calls : List String) : Option String :=
+  if ns ≠ ds then some s!"write-count: returned n={ns} bytes emitted={ds}"
+  else if wf && calls ≠ expected then
+    some ("roundtrip: expected " ++ ((" ".intercalate expected).take 300).toString)
+  else none
+
+/-- the call history demanded of a FASTA round trip: every record, then `EOF`; it is the
+    rendering of the conclusion of `fasta_roundtrip` (`fasta_expected_is_roundtrip`) -/
+def expectedFa (recs : List Biogo.Fasta.Rec) : List String :=
+  recs.map (fun r => "R:" ++ recFields r.name r.desc r.letters []) ++ ["EOF"]
+
+/-- the call history demanded of a FASTQ round trip (`plain`: a `linear.Seq`, no scores of its own);
+    the rendering of the conclusion of `fastq_roundtrip` / `fastq_roundtrip_plain` -/
+def expectedFq (plain : Bool) (recs : List Biogo.Fastq.QRec) : List String :=
+  recs.map (fun r => "R:" ++ recFields r.name r.desc r.letters (if plain then [] else r.quals)) ++ ["EOF"]
+
 /-- statement of C01 on the implementation's observation; `none` = holds -/
 def statement (wf : Bool) (expected : List String) (obs : String) : Option String :=
   if obs.startsWith "panic:" then (if wf then some "writer-or-reader-panicked" else none)
   else if obs == "hang" then (if wf then some "writer-or-reader-hung" else none)
   else
     match tokens obs with
-    | "w" :: ns :: ds :: _ :: _ :: "r" :: calls =>
-      if ns ≠ ds then some s!"write-count: returned n={ns} bytes emitted={ds}"
-      else if wf && calls ≠ expected then
-        some ("roundtrip: expected " ++ ((" ".intercalate expected).take 300).toString)
-      else none
+    | "w" :: ns :: ds :: _ :: _ :: "r" :: calls => demands wf expected ns ds calls
     | _ => if wf then some "unparsable-observation" else none
 
 def verdict (wf : Bool) (expected : List String) (model obs : String) (tags : List String) : Verdict :=
@@ -43,7 +58,7 @@ def handleFa (width : Nat) (typ alpha : String) (rs : List (Bytes × Bytes × By
   let tags := ["fasta", "typ-" ++ typ, alpha, s!"recs{min recs.length 3}", lenTag maxLen,
                if width ≤ 3 then "width1-3" else if width < 4096 then "width<4096" else "width>=4096"]
              ++ (if wf then (if recs.isEmpty then ["wf"] else ["wf", "nt"]) else ["nonwf"])
-  let expected := recs.map (fun r => "R:" ++ recFields r.name r.desc r.letters []) ++ ["EOF"]
+  let expected := expectedFa recs
   let model :=
     match Biogo.Fasta.writeAll { cfg := fastaCfg, width := width } {} recs with
     | .error p => "panic:" ++ p.code
@@ -67,7 +82,7 @@ def handleFq (qid : Bool) (typ : String) (enc : Biogo.Fastq.Encoding) (alpha : S
                s!"recs{min recs.length 3}", lenTag maxLen]
              ++ (if startsAtPlus then ["quality-starts-with-@-or-+"] else [])
              ++ (if wf then (if recs.isEmpty then ["wf"] else ["wf", "nt"]) else ["nonwf"])
-  let expected := recs.map (fun r => "R:" ++ recFields r.name r.desc r.letters (if plain then [] else r.quals)) ++ ["EOF"]
+  let expected := expectedFq plain recs
   -- a plain linear.Seq has no Encoding method: the writer uses Sanger and At(i).Q = DefaultQphred
   let (wrecs, wenc) := if plain then (recs.map Biogo.Fastq.ofPlain, Biogo.Fastq.Encoding.sanger) else (recs, enc)
   let (sink, ns) := Biogo.Fastq.writeAll qtables qid wenc {} wrecs
